@@ -222,12 +222,31 @@ static std::string guarded(F f)
 }
 
 static std::string g_lastMsg;
+static std::string g_needle;        // set by `nd <hex>`: a text the next error messages must contain
+static int g_msgUtf8 = -1, g_msgHasNeedle = -1;
+
+static bool validUtf8(const std::string& s)
+{
+    size_t i = 0;
+    while (i < s.size())
+    {
+        const unsigned char c = (unsigned char)s[i];
+        size_t n = c < 0x80 ? 0 : (c >> 5) == 6 ? 1 : (c >> 4) == 14 ? 2 : (c >> 3) == 30 ? 3 : 99;
+        if (n == 99 || i + n > s.size() - 1) return false;
+        for (size_t k = 1; k <= n; ++k) if ((((unsigned char)s[i + k]) >> 6) != 2) return false;
+        i += n + 1;
+    }
+    return true;
+}
 
 static size_t msgLen(XalanTransformer& t)
 {
     const char* m = t.getLastError();
-    g_lastMsg = m ? std::string(m).substr(0, 160) : std::string();
-    return m ? std::strlen(m) : 0;
+    const std::string full = m ? std::string(m) : std::string();
+    g_lastMsg = full.substr(0, 160);
+    g_msgUtf8 = validUtf8(full) ? 1 : 0;
+    g_msgHasNeedle = g_needle.empty() ? -1 : (full.find(g_needle) != std::string::npos ? 1 : 0);
+    return full.size();
 }
 
 static bool followUp(XalanTransformer& t)
@@ -244,6 +263,7 @@ static void reply(int rc, size_t ml, const std::string& esc, bool fu, const std:
     std::cout << "rc=" << rc << " msg=" << ml << " esc=" << esc << " fu=" << (fu ? 1 : 0);
     if (out) std::cout << " out=" << tohex(out->size() > 4096 ? out->substr(0, 4096) : *out);
     if (rc != 0 && !g_lastMsg.empty()) std::cout << " err=" << tohex(g_lastMsg);
+    if (rc != 0) std::cout << " eu=" << g_msgUtf8 << " nf=" << g_msgHasNeedle;
     g_lastMsg.clear();
     std::cout << std::endl;
 }
@@ -355,6 +375,11 @@ static int xsltMode()
                     }
                 });
                 std::cout << "rc=0 msg=0 esc=" << esc << " fu=1 codes=" << count << " calls=" << calls << " maxlen=" << maxLen << std::endl;
+            }
+            else if (cmd == "nd" && a.size() >= 1)
+            {
+                g_needle = a[0] == "-" ? std::string() : unhex(a[0]);
+                std::cout << "rc=0 msg=0 esc=none fu=1" << std::endl;
             }
             else if (cmd == "uri" && a.size() >= 2)
             {
